@@ -511,7 +511,7 @@ pub fn gen_timing_line(rng: &mut Rng, time: f64) -> String {
     let bl = match rng.below(10) {
         0..=3 => format!("{}", 200.0 + 600.0 * rng.unit()),
         4..=6 => format!("-{}", *rng.pick(&[100.0, 50.0, 200.0, 133.33, 1000.0, 5.0])),
-        7 => rng.pick(&["NaN", "0", "-0.5", "1e9", "3000000000", "5", "70000", "inf"]).to_string(),
+        7 => rng.pick(&["NaN", "0", "-0.5", "1e9", "3000000000", "5", "70000", "inf", "-0.0001", "-1e-7", "-1e-300", "-1e300", "-1e9", "-2147483647", "1e-300", "-5e-324"]).to_string(),
         _ => "500".to_string(),
     };
     let nf = if rng.chance(1, 4) { 2 + rng.below(7) } else { 8 };
